@@ -12,7 +12,7 @@
 From Coq Require Import List Ascii String NArith Bool.
 From Coq Require Import Arith.
 From Martian.C14 Require Import Gen_HopByHop Gen_Stack Gen_Shared Model Proofs_Base Proofs_Stack Proofs_Spec
-  Proofs_Conc Proofs_Audit Proofs_Chain Proofs_Tie.
+  Proofs_Conc Proofs_Audit Proofs_Chain Proofs_Framing Proofs_Tie.
 Import ListNotations.
 
 (* No hop-by-hop header of the received message survives: after the stack a
@@ -229,6 +229,28 @@ Theorem C14_totalisation_defaults_never_decide :
 Proof. exact s_totalisation. Qed.
 Print Assumptions C14_totalisation_defaults_never_decide.
 
+(* ---------------- the final transfer-coding is a token ---------------- *)
+
+(* "Transfer-Encoding not ending in chunked": the flag is decided by the LAST
+   element of the whole Transfer-Encoding list (all lines, all comma elements),
+   trimmed, compared AS A WHOLE with the token chunked (case-sensitively, as the
+   code does).  Nothing before the last element matters; an element that merely
+   contains, starts with or ends in those letters (x-chunked, unchunked,
+   chunkedx, chunked;q=1, CHUNKED, an empty element after a trailing comma) is
+   flagged whatever precedes it; a flagged request gets the framing error. *)
+Theorem C14_te_flag_is_token_equality_on_the_last_list_element :
+  (forall h, te_bad h = true <->
+     values h K_TE <> [] /\ trim (last (te_elems (values h K_TE)) []) <> CHUNKED) /\
+  (forall tes tes', tes <> [] -> tes' <> [] ->
+     trim (last (te_elems tes) []) = trim (last (te_elems tes') []) ->
+     te_last_ok tes = te_last_ok tes') /\
+  (forall h lines rest elem, ~ In comma elem ->
+     (values h K_TE = lines ++ [rest ++ comma :: elem] \/ values h K_TE = lines ++ [elem]) ->
+     (te_bad h = true <-> trim elem <> CHUNKED)) /\
+  (forall e h, te_bad h = true -> o_err (stack_req e h) = Some EFraming).
+Proof. exact s_te_token. Qed.
+Print Assumptions C14_te_flag_is_token_equality_on_the_last_list_element.
+
 (* ---------------- instance identity, chains of proxies ---------------- *)
 
 (* "This proxy instance" is the whole pseudonym requestedBy-boundary: instances
@@ -389,3 +411,18 @@ Example C14_example_chain :
     [B "1.0 front, 1.1 martian-00112233445566778899, 1.1 martian-aabbccddeeff00112233, 1.1 martian-0123456789abcdef0123"] /\
   map o_err (chain [ex_A; ex_B; ex_A] ex_chain_in) = [None; None; Some ELoop].
 Proof. vm_compute. repeat split; try reflexivity; repeat constructor. Qed.
+
+(* near-miss final codings are flagged in single-line, comma-list and multi-line forms; the token itself,
+   with optional white space around it, is not *)
+Example C14_example_te_near_misses :
+  forallb (fun tes => bad_framing (of_lines (map (fun v => (B "Transfer-Encoding", B v)) tes)))
+    [ ["gzip, x-chunked"]; ["unchunked"]; ["chunked"; "notchunked"]; ["gzip;q=chunked"]; ["chunkedx"];
+      ["chunked;q=1"]; ["CHUNKED"]; ["chunked,"]; ["chunked, "]; ["gzip"; "chunked, x-chunked"];
+      ["chunked chunked"]; [""] ]%string = true /\
+  forallb (fun tes => negb (bad_framing (of_lines (map (fun v => (B "Transfer-Encoding", B v)) tes))))
+    [ ["chunked"]; [" chunked "]; ["gzip , chunked"]; ["x-chunked"; "gzip,chunked"]; ["unchunked, chunked"] ]%string = true /\
+  ~ In comma (B " x-chunked") /\ trim (B " x-chunked") <> CHUNKED.
+Proof.
+  split; [vm_compute; reflexivity|]. split; [vm_compute; reflexivity|].
+  split; [vm_compute; intuition discriminate | vm_compute; discriminate].
+Qed.
